@@ -64,7 +64,7 @@ CONSTANTS Sizes,      \* <<s1, .., sN>>, 2 <= N <= 5, sizes 1..3
           Errs,       \* sequence over {"q", "std", "stderr"}   (passed through; spread bands are not lines)
           Pals,       \* sequence of BOOLEAN: palette given      (passed through)
           Dens,       \* sequence of BOOLEAN: bins_density
-          Bins,       \* sequence over {"auto", "n4", "nN", "e1", "e3", "eu", "en"} (hist) / <<"na">>
+          Bins,       \* sequence over {"auto", "n4", "nN", "e1", "e3", "eu", "en", "ee"} (hist) / <<"na">>
           HistAll,    \* BOOLEAN (hist): also assignments that leave no dim to bin over (each slice one sample)
           Stride, Sub, Seed, \* sampling: keep 1/Sub of the assignments and 1/Stride of the case numbers
           Bug         \* "none" | "domBeforeDrop" | "swapRowCol" | "maskYOnly" | "joinInverted"
@@ -259,6 +259,9 @@ BinsFor(kind, V, H) ==
           \* "en": explicit edges narrower than the data (samples are 0 .. 2 NCells - 2): samples outside are not counted
           [] kind = "en" -> [e0 |-> 2 * (NCells \div 4) - 1, w |-> 4, q |-> 0, den |-> 1,
                              nb |-> Max({1, NCells \div 4}), edges |-> TRUE]
+          \* "ee": explicit *even* edges 2, 6, 10, ... : samples sit exactly on the first edge (2), on interior edges
+          \* and on / beyond the last edge; np.histogram's bins are half-open [a, b) except the last, which is closed
+          [] kind = "ee" -> [e0 |-> 2, w |-> 4, q |-> 0, den |-> 1, nb |-> Max({1, (NCells - 2) \div 2}), edges |-> TRUE]
           [] OTHER -> [e0 |-> Min(V) * nbi, w |-> Max(V) - Min(V), q |-> 0, den |-> nbi, nb |-> nbi, edges |-> FALSE]
 Edge(b, k) == b.e0 + k * b.w + b.q * k * (k + 1)
 BinOf(b, v) == LET x == v * b.den
@@ -266,7 +269,9 @@ BinOf(b, v) == LET x == v * b.den
                    ELSE IF b.q = 0 THEN (x - b.e0) \div b.w + 1
                    ELSE CHOOSE k \in 1..b.nb : Edge(b, k - 1) <= x /\ x < Edge(b, k)
 (* a sample exactly on an interior edge computed by np.linspace: either neighbouring bin is acceptable *)
-BinTie(b, V) == (~b.edges) /\ \E v \in V : LET u == v * b.den - b.e0 IN u % b.w = 0 /\ u > 0 /\ u < b.w * b.nb
+(* - unless the step (hi - lo) / nb is an integer: then every edge is an exact float and the half-open rule decides  *)
+BinTie(b, V) == (~b.edges) /\ (b.w % b.den # 0)
+                /\ \E v \in V : LET u == v * b.den - b.e0 IN u % b.w = 0 /\ u > 0 /\ u < b.w * b.nb
 (* the samples np.histogram counts at all: those within [first edge, last edge] *)
 InBins(b, V) == {v \in V : Edge(b, 0) <= v * b.den /\ v * b.den <= Edge(b, b.nb)}
 (* points <<centre num, centre den, y num, y den>>: counts, or count / (n * width of that bin), n = samples counted *)
